@@ -119,7 +119,9 @@ _class_obligations = obligations
 
 
 def obligations():  # noqa: F811
-    return _class_obligations() + _examples() + statement_forms_well_formed()
+    from tx.p_c05 import share, read_targets_through_filter
+    from tx import pipeline
+    return _class_obligations() + _examples() + statement_forms_well_formed() + share("read/", read_targets_through_filter()) + pipeline.obligations()
 
 
 def fornext_closers():
